@@ -579,6 +579,13 @@ theorem gen_DLogSum_spec (v : Array XR) (hv : ∀ x ∈ v.toList, x.isLogP) (hfi
     ∃ r : ℝ, esl_vec_DLogSum v v.size = some (XR.fin r) ∧
       |r - Real.log ((finites v.toList).map Real.exp).sum| ≤ v.toList.length * Real.exp (-500) := by
   rw [Vec.gen_DLogSum xr_window v]; exact Vec.logSum_spec v.toList hv hfin
+theorem gen_DLog2Sum_spec (v : Array XR) (hv : ∀ x ∈ v.toList, x.isLogP) (hfin : finites v.toList ≠ []) :
+    ∃ r : ℝ, esl_vec_DLog2Sum v v.size = some (XR.fin r) ∧
+      |r - Real.logb 2 ((finites v.toList).map fun a => (2 : ℝ) ^ a).sum| ≤ v.toList.length * (2 : ℝ) ^ (-500 : ℝ) / Real.log 2 := by
+  rw [Vec.gen_DLog2Sum xr_window v]; exact Vec.log2Sum_spec v.toList hv hfin
+/-- all entries `-inf` (and the vector non-empty): the regenerated `DLogSum` returns `-inf`, no NaN from `inf - inf` -/
+theorem gen_DLogSum_all_ninf (v : Array XR) (hne : v.toList ≠ []) (hv : ∀ x ∈ v.toList, x = XR.ninf) : esl_vec_DLogSum v v.size = some XR.ninf := by
+  rw [Vec.gen_DLogSum xr_window v]; exact Vec.logSum_all_ninf v.toList hne hv
 theorem gen_DLogNorm_spec (v : Array XR) (hv : ∀ x ∈ v.toList, x.isLogP) (hfin : finites v.toList ≠ []) :
     (esl_vec_DLogNorm v v.size).map Array.toList = some ((softmax v.toList).map XR.fin) ∧ (softmax v.toList).sum = 1 := by
   rw [Vec.gen_DLogNorm xr_uniform xr_window v]; exact Vec.logNorm_spec v.toList hv hfin
